@@ -511,6 +511,9 @@ def make_e2e(style):
     orig = prov.execute
     log = []
     def conv(sql, a):
+        want = dict if style in ('named', 'pyformat') else tuple
+        if type(a) is not want:
+            raise TypeError('driver shim: paramstyle %s needs a %s of arguments, got %s' % (style, want.__name__, type(a).__name__))
         if style == 'format': return sql % tuple('?' for _ in a), tuple(a)
         if style == 'pyformat': return sql % {k: ':' + k for k in a}, a
         if style == 'numeric':
@@ -570,14 +573,18 @@ def _rows(style):
 
 
 def populate(style, strs):
+    """-> None, or the exception text when storing failed"""
     from pony import orm
     db, P, log = make_e2e(style)
-    with orm.db_session:
-        have = {s for _, s in _rows(style)}
-        new = [s for s in strs if s not in have]
-        for s in new: P(name=s, n=len(s))
-        orm.commit()
-    return len(new)
+    try:
+        with orm.db_session:
+            have = {s for _, s in _rows(style)}
+            new = [s for s in strs if s not in have]
+            for s in new: P(name=s, n=len(s))
+            orm.commit()
+    except Exception as e:
+        return 'EXC %s: %s' % (type(e).__name__, str(e)[:300])
+    return None
 
 
 def e2e_failure(style, op, const, v, got, want, sql):
@@ -602,7 +609,12 @@ def search(ctx, deep):
 
     for style in STYLES:
         # (a) stored through the ORM (bound parameters; bulk and single inserts), read back with raw sqlite3
-        populate(style, stored)
+        err = populate(style, stored)
+        if err:
+            evals += 1
+            fail(Failure('unlisted:e2e:%s:store:raises' % style, 'paramstyle %s: storing strings through the ORM failed: %s' % (style, err),
+                         {'kind': 'store', 'style': style, 'strs': stored[:5]}))
+            continue
         with orm.db_session:
             rows = _rows(style)
             evals += len(rows); count('stored_roundtrip', len(rows))
@@ -663,6 +675,14 @@ def search(ctx, deep):
             f = ident_fmt_case(prov, name)
             if f: fail(f)
             elif classes(name) != 'plain': nontriv.add(('ident_fmt', prov, name))
+    subjects = [s for s in strs if len(s) <= 4][:60]
+    for v in [s for s in strs if s][:(40 if not deep else 200)]:
+        for prov in ('postgres', 'mysql'):
+            for op in ('contains', 'startswith', 'endswith'):
+                evals += 1; count('like_default_escape_doc_model')
+                f = like_bs_case(prov, op, v, subjects)
+                if f: fail(f)
+                elif classes(v) != 'plain': nontriv.add(('like_bs', prov, op, v))
     return Search(evaluations=evals, failures=failures, nontrivial=len(nontriv), distribution=dist, exhaustive=False,
                   samples=[{'e2e': 'select(p.id for p in P if %r in p.name) under paramstyle pyformat on SQLite through the driver shim' % "50%_!'"}])
 
@@ -713,14 +733,32 @@ def ident_fmt_case(prov, name):
                    {'kind': 'ident_fmt', 'provider': prov, 'name': name})
 
 
+def like_bs_case(prov, op, v, subjects):
+    """real translator on a PostgreSQL / MySQL mock; the LIKE condition is judged with the documented default escape
+    character (backslash) when Pony emits no ESCAPE clause"""
+    py = OPS[op][0]
+    node = like_ast(prov, op, True, v)
+    pat = eval_pattern(node[2], v)
+    esc = '!' if len(node) == 4 else '\\'
+    subs = list(subjects) + [v, 'a' + v + 'b', 'a%', 'ab', '\\', 'a\\b']
+    bad = [s for s in subs if py_like(esc, pat, s) != py(v, s)]
+    if not bad: return None
+    key = 'like-constant-backslash-default-escape-documentation-model' if (len(node) == 3 and '\\' in v) else 'unlisted:like-doc:%s:%s:%s' % (prov, op, classes(v))
+    return Failure(key, '%s (documented LIKE rules, not executed): %s with the constant %r builds LIKE %r%s; for the subject %r that is %r, Python says %r' % (
+        prov, op, v, pat, " ESCAPE '!'" if len(node) == 4 else ' (no ESCAPE: backslash is the escape character)', bad[0], py_like(esc, pat, bad[0]), py(v, bad[0])),
+        {'kind': 'like_bs', 'provider': prov, 'op': op, 'v': v})
+
+
 def replay(ctx, data):
     kind = data.get('kind')
+    if kind == 'like_bs': return like_bs_case(data['provider'], data['op'], data['v'], ['', 'a', 'ab'])
     if kind == 'e2e':
         populate(data['style'], strings(ctx, 0)[:70] + [data['v'], data['v'] + 'x', 'x' + data['v'], 'a' + data['v'] + 'b'])
         got, want, sql = e2e_query(data['style'], data['op'], data['const'], data['v'])
         return None if got == want else e2e_failure(data['style'], data['op'], data['const'], data['v'], got, want, sql)
     if kind == 'store':
-        populate(data['style'], data['strs'])
+        err = populate(data['style'], data['strs'])
+        if err: return Failure('unlisted:e2e:%s:store:raises' % data['style'], 'storing strings through the ORM failed: %s' % err, data)
         from pony import orm
         with orm.db_session:
             back = {s for _, s in _rows(data['style'])}
